@@ -95,6 +95,16 @@ fn run_route(name: &'static str, text: &[u8], json: bool, explicit: bool, prog_p
     Some(RouteOut { name, out, err: trunc(&line, 300) })
 }
 
+/// Open finding: a JSON text whose trailing white space (after the root value) has a tab
+/// directly after a line break is rejected ("tab character used for indentation").
+const SIG_JSON_TAIL_TAB: &str = "C26/json-input-rejected/tab-after-line-break-in-trailing-white-space";
+
+/// the white space after the last token of `json` contains a line break directly followed by a tab
+fn tab_after_break_in_tail(json: &[u8]) -> bool {
+    let end = json.iter().rposition(|b| !matches!(b, b' ' | b'\t' | b'\n' | b'\r')).map(|p| p + 1).unwrap_or(0);
+    json[end..].windows(2).any(|w| (w[0] == b'\n' || w[0] == b'\r') && w[1] == b'\t')
+}
+
 /// digits -> N: a stable shape of an error message
 fn err_shape(msg: &str) -> String {
     let mut out = String::new();
@@ -110,7 +120,7 @@ fn err_shape(msg: &str) -> String {
             out.push(c);
         }
     }
-    trunc(&out, 100)
+    trunc(&out, 160)
 }
 
 #[derive(Debug, PartialEq, Clone, Copy)]
@@ -196,6 +206,9 @@ pub fn check_case(c: &Case, st: &mut Stats) -> Result<Outcome, Fail> {
             // name the route that failed and the shape of its message
             let failing = if rs[0].out.code != Some(0) { &rs[0] } else { r };
             let ok_route = if rs[0].out.code != Some(0) { r.name } else { rs[0].name };
+            if failing.name == "json" && failing.err.contains("tab character used for indentation") && tab_after_break_in_tail(&c.json) {
+                return Err(Fail::new(SIG_JSON_TAIL_TAB, detail(&rs, json!({}))));
+            }
             return Err(Fail::new(
                 format!("C26/exit-status-differs/{}-fails-{}-succeeds/{}", failing.name, ok_route, err_shape(&failing.err)),
                 detail(&rs, json!({})),
@@ -264,7 +277,7 @@ struct Generated {
     prog: CoreProg,
 }
 
-fn gen_case(u: &mut Src) -> Generated {
+fn gen_case(u: &mut Src, avoid_tail_tab: bool) -> Generated {
     // half of the trees use the simple palette: programs (string functions, sorting,
     // comparisons) hit more often; the other half carries every hostile string through
     // all three syntaxes
@@ -274,7 +287,16 @@ fn gen_case(u: &mut Src) -> Generated {
     let prog = yqprog::gen_core(u, &tree);
     let j = gy::to_json_model(&tree);
     let ro = gj::render_opts(u);
-    let json = gj::render(&j, u, ro).text;
+    let mut json = gj::render(&j, u, ro).text;
+    if avoid_tail_tab && tab_after_break_in_tail(&json) {
+        // open finding: keep the trailing white space, but no tab right after a line break
+        let end = json.iter().rposition(|b| !matches!(b, b' ' | b'\t' | b'\n' | b'\r')).map(|p| p + 1).unwrap_or(0);
+        for i in end + 1..json.len() {
+            if json[i] == b'\t' && (json[i - 1] == b'\n' || json[i - 1] == b'\r') {
+                json[i] = b' ';
+            }
+        }
+    }
     let mut bo = YOpts::block_only();
     bo.avoid = avoid();
     let mut fo = YOpts::flow_only();
@@ -324,8 +346,9 @@ fn describe(c: &Case) -> Value {
     })
 }
 
-fn run_case(u: &mut Src, st: &mut Stats) -> Result<(), Fail> {
-    let g = gen_case(u);
+fn run_case(u: &mut Src, st: &mut Stats, avoid_tail_tab: bool) -> Result<(), Fail> {
+    let g = gen_case(u, avoid_tail_tab);
+    st.class_if(tab_after_break_in_tail(&g.case.json), "json:tab-after-line-break-in-tail");
     classify(&g, st);
     st.describe(|| describe(&g.case));
     match check_case(&g.case, st)? {
@@ -376,7 +399,11 @@ pub fn run(cx: &mut Ctx) {
             cx.replay_outcome(&name, r);
         }
     }
-    cx.check("three-syntaxes", RULE, Budget { quick: 4_000, thorough: 200_000, max_len: 2500 }, run_case);
+    let avoid_tail_tab = cx.is_known(SIG_JSON_TAIL_TAB);
+    if avoid_tail_tab {
+        cx.note("open finding: JSON renderings with a tab right after a line break in the trailing white space are not generated in `three-syntaxes`; `open-finding-shapes` generates them");
+    }
+    cx.check("three-syntaxes", RULE, Budget { quick: 4_000, thorough: 200_000, max_len: 2500 }, |u, st| run_case(u, st, avoid_tail_tab));
     for cl in [
         "nontrivial", "outcome:values-compared", "outcome:all-three-error-alike", "outcome:multiple-results", "format-by-flag", "format-by-extension",
         "root-mapping", "root-sequence", "field", "index", "iterate", "pipe", "comma", "array-construct", "object-construct", "compare", "boolean",
@@ -384,6 +411,12 @@ pub fn run(cx: &mut Ctx) {
     ] {
         cx.require_class("three-syntaxes", cl, 10);
     }
+    cx.check(
+        "open-finding-shapes",
+        "the same search with the shapes of C26's open findings generated (trailing JSON white space unrestricted); failures with a listed signature are counted, others are violations",
+        Budget { quick: 400, thorough: 10_000, max_len: 2500 },
+        |u, st| run_case(u, st, false),
+    );
     let t = TIMEOUTS.load(Ordering::Relaxed);
     if t > 0 {
         cx.note(format!("{} CLI runs hit the 20 s watchdog twice and were discarded (not violations)", t));
